@@ -748,7 +748,7 @@ Section Compose.
             intros s' N. apply e2e_get_put_other. lia. }
         fold goc. destruct goc as [[q streams1]|]; [|split; [assumption|split; [assumption|split; assumption]]].
         destruct Hgoc as (HQ & Hget & Hoth).
-        destruct (rq_admit (e2e_credit (e2e_buf st) streams1) (last_tsn_received (e2e_pq st)) (wrap32 i)).
+        destruct (rq_admit (e2e_credit (e2e_buf st) streams1 (e2e_detached st)) (last_tsn_received (e2e_pq st)) (wrap32 i)).
         * (* handed to the stream *)
           pose proof (can_push_push _ _ Ecp) as Hpush.
           pose proof (J_accept_new k0 _ _ i HJ Htsn Hpush) as Hnew.
@@ -1214,3 +1214,59 @@ Section Generator.
     specialize (G n 0%nat). cbn [skipn] in G. apply G. intros k Hk. apply Hex. lia.
   Qed.
 End Generator.
+
+(* ========================================================================================== *)
+(* Part D: an inbound stream reset does not change the advertised window (C11, fix 243f816)     *)
+(* ========================================================================================== *)
+Lemma e2e_get_del_split sid : forall l q, e2e_get sid l = Some q ->
+  exists l1 l2, map snd l = l1 ++ q :: l2 /\ map snd (e2e_del sid l) = l1 ++ l2.
+Proof.
+  induction l as [|[k x] t IH]; intros q H; cbn [e2e_get e2e_del] in *; [discriminate|].
+  destruct (k =? sid).
+  - inversion H; subst. exists [], (map snd t). split; reflexivity.
+  - destruct (IH q H) as (l1 & l2 & A & B). exists (x :: l1), l2. cbn [map snd]. rewrite A, B. split; reflexivity.
+Qed.
+
+Definition e2e_held (st : e2e_rcv) : Z :=
+  zsum (map rq_held_bytes (map snd (e2e_streams st))) + zsum (map rq_held_bytes (e2e_detached st)).
+
+Definition e2e_queues_reachable (st : e2e_rcv) : Prop :=
+  Forall rq_reachable (map snd (e2e_streams st)) /\ Forall rq_reachable (e2e_detached st).
+
+Theorem e2e_window_formula st :
+  0 <= e2e_buf st < 4294967296 -> e2e_queues_reachable st -> e2e_held st < 4294967296 ->
+  e2e_a_rwnd st = Z.max 0 (e2e_buf st - e2e_held st).
+Proof.
+  intros Hb [Hm Hd] Hs. unfold e2e_a_rwnd, e2e_credit, e2e_held in *.
+  rewrite rq_credit_formula_thm by assumption. lia.
+Qed.
+
+Theorem e2e_reset_keeps_window st sid :
+  0 <= e2e_buf st < 4294967296 -> e2e_queues_reachable st -> e2e_held st < 4294967296 ->
+  e2e_a_rwnd (e2e_reset st sid) = e2e_a_rwnd st /\ e2e_held (e2e_reset st sid) = e2e_held st /\
+  e2e_queues_reachable (e2e_reset st sid).
+Proof.
+  intros Hb [Hm Hd] Hs. unfold e2e_reset. destruct (e2e_get sid (e2e_streams st)) as [q|] eqn:Eg; [|repeat split; assumption].
+  destruct (e2e_get_del_split sid _ q Eg) as (l1 & l2 & A & B).
+  unfold e2e_a_rwnd, e2e_credit, e2e_held, e2e_queues_reachable in *.
+  cbn [e2e_buf e2e_streams e2e_detached]. rewrite A in *. rewrite B.
+  assert (Hq : rq_reachable q) by (apply Forall_app in Hm; destruct Hm as [_ H]; inversion H; assumption).
+  destruct (rq_reachable_counter q Hq) as [Eq Nq].
+  assert (Hm' : Forall rq_reachable (l1 ++ l2)).
+  { apply Forall_app in Hm. destruct Hm as [X Y]. inversion Y; subst. apply Forall_app. split; assumption. }
+  assert (Hd' : Forall rq_reachable (rq_detach q (e2e_detached st))).
+  { unfold rq_detach. destruct (rq_nbytes q >? 0); [apply Forall_snoc|]; assumption. }
+  split; [apply rq_credit_reset_thm; assumption|]. split; [|split; assumption].
+  rewrite !map_app, !zsum_app. cbn [map]. unfold rq_detach.
+  destruct (rq_nbytes q >? 0) eqn:E; [rewrite map_app, zsum_app|]; unfold zsum; cbn [map]; rewrite ?gsum_cons; cbn; lia.
+Qed.
+
+(* the D12 witness, now as a regression of the model: one unread 3-byte message, the peer resets the stream,
+   the window still shows the 3 bytes; after the application has read it the whole buffer is advertised *)
+Example e2e_window_after_reset_example :
+  let c := mkRqChunk 1 7 0 0 0 53 false true true false [1; 2; 3] in
+  let st1 := fst (e2e_recv_data (e2e_new 1 4096 0 false) c true) in
+  let st2 := e2e_reset st1 7 in
+  let st3 := fst (e2e_read_detached st2 0 64) in
+  e2e_a_rwnd st1 = 4093 /\ e2e_streams st2 = [] /\ e2e_a_rwnd st2 = 4093 /\ e2e_a_rwnd st3 = 4096.
+Proof. vm_compute. repeat split. Qed.
